@@ -894,6 +894,17 @@ func TestC15(t *testing.T) {
 				}
 			}
 		}
+		// and a few very long ones (a generated table or a licence text on one line): buffer sizes of 4 KiB, 64 KiB
+		if r.Shard == 0 {
+			for _, l := range []int{4095, 4096, 4097, 65535, 65536, 65537, 131073, 200000} {
+				for si, shape := range []string{"line", "block", "block-nl"} {
+					c := lenCase{Len: l, Shape: shape, Host: []string{"Block", "File", "Struct"}[(si+l)%3], Pos: []string{"end-of-last-item", "own-last-item"}[(si+l/2)%2]}
+					hx.One(r, ckL, c)
+					r.NonTrivial(fmt.Sprintf("%+v", c))
+				}
+			}
+			r.Class("very_long_comment_texts")
+		}
 		r.Exhaustive(fmt.Sprintf("comment text lengths 0..%d x {one-line, multi-line, multi-line with trailing newline}", maxLen))
 	}
 
